@@ -1082,7 +1082,9 @@ class Bound(object):
         )
         df = sy.diff(f, x)
         df2 = sy.diff(df, x)
-        inv = sy.solve(f - y, x)
+        # check=False: with an upper bound below -1 sympy rejects both roots
+        # (it cannot verify them for a symbolic y) and returned no inverse
+        inv = sy.solve(f - y, x, check=False)
         if hasattr(inv, "__len__"):
             inv = inv[-1]
         return f, df, df2, inv
